@@ -13,3 +13,13 @@ func (s *SessionManager) VerifHeartbeatTimeout() time.Duration { return s.config
 func (s *SessionManager) VerifRemoveFromControlConnMap(connID string) {
 	s.removeFromControlConnMap(connID, nil)
 }
+
+// VerifLocked reports whether the registry mutex is currently held (an I/O call made under it is not an
+// interleaving point: every other registry method would block there).
+func (r *ClientRegistry) VerifLocked() bool {
+	if r.mu.TryLock() {
+		r.mu.Unlock()
+		return false
+	}
+	return true
+}
